@@ -315,12 +315,18 @@ impl RobotBody {
                 // Determine joints that do not require collision checks
                 let skip_indices: HashSet<usize> = (0..joint_index).collect();
 
-                // Detect collisions, skipping specified indices
+                // Detect collisions, skipping specified indices. When collision checks are
+                // switched off for this robot (NoCheck), they are off here as they are in collides().
+                let mode = if self.safety.mode == CheckMode::NoCheck {
+                    CheckMode::NoCheck
+                } else {
+                    CheckMode::FirstCollisionOnly
+                };
                 if self
                     .detect_collisions_with_skips(
                         &joint_poses_f32,
                         &self.safety,
-                        &Some(CheckMode::FirstCollisionOnly),
+                        &Some(mode),
                         &skip_indices,
                     )
                     .is_empty()
